@@ -218,6 +218,7 @@ def resolver(
                     conversion=conversion,
                     schema=schema,
                     error_handler=error_handler,
+                    order=order,
                     owner=owner,
                 )(func)
             except Exception:
